@@ -18,7 +18,7 @@ PROPERTIES_V = 'theories/C04/Properties.v'
 IMPORTS = 'Require Import FV.Base.F64 FV.Base.PyVal FV.C01.Model FV.Gen.C04 FV.C04.Model FV.C04.Run.'
 CASE_TYPE = 'case'
 CHECK = 'check_case'
-SHARD_SIZE = 150
+SHARD_SIZE = 100
 RULE = ('a generated module class (two class levels built with type(): 1-4 parameters over int/float/scaled/bool/enum/string/'
         'array/tuple/struct datatypes with readonly/constant/export(True, False, custom name) flags and optional '
         'write_<p> methods, Limit parameters <p>_min/_max/_limits on either class level, user check_<p> hooks on either level '
@@ -213,12 +213,18 @@ def _errname(reply):
 
 def run_case(case):
     from frappy.lib import generalConfig
+    from frappy.protocol.interface import handler as hmod
     saved = generalConfig._config
     generalConfig.testinit(omit_unchanged_within=0)
+    # the traceback texts of an error report are dropped again by handle() (detailed_errors = False) but cost a repr of
+    # every local variable of every stack frame (including the worker pool's case lists): stub the three formatters
+    fmt = (hmod.formatException, hmod.formatExtendedStack, hmod.formatExtendedTraceback)
+    hmod.formatException = hmod.formatExtendedStack = hmod.formatExtendedTraceback = lambda *a, **k: ''
     try:
         with contextlib.redirect_stdout(io.StringIO()):
             return _run(case)
     finally:
+        hmod.formatException, hmod.formatExtendedStack, hmod.formatExtendedTraceback = fmt
         generalConfig._config = saved
 
 
@@ -458,6 +464,65 @@ def clearly_valid(d, j):
     return False
 
 
+def clearly_invalid(d, j, has_previous):
+    """conservative: True only if the transport value j certainly denotes no value of d"""
+    t = d['t']
+    isnum = isinstance(j, (int, float)) and not isinstance(j, bool)
+    if t == 'float':
+        if isinstance(j, bool):
+            return False
+        if not isnum or j != j:
+            return True
+        lo, hi = G.dec_float(d['min']), G.dec_float(d['max'])
+        if abs(j) > 1e300:
+            return False
+        tol = 2 * max(G.dec_float(d['abs']) if 'abs' in d else 0.0, abs(j) * (G.dec_float(d['rel']) if 'rel' in d else 1.2e-7))
+        return j < lo - tol - abs(lo) * 1e-9 or j > hi + tol + abs(hi) * 1e-9
+    if t == 'int':
+        if isinstance(j, bool):
+            return False
+        if not isnum or j != j:
+            return True
+        return j < d['min'] or j > d['max'] or (isinstance(j, float) and not j.is_integer())
+    if t == 'scaled':
+        if isinstance(j, bool):
+            return False
+        if not isnum or j != j:
+            return True
+        s = G.dec_float(d['scale'])
+        if isinstance(j, float) and not j.is_integer():
+            return True
+        return j < round(G.dec_float(d['min']) / s) - 1 or j > round(G.dec_float(d['max']) / s) + 1
+    if t == 'bool':
+        return not (isinstance(j, (bool, int, float)) and j in (0, 1))
+    if t == 'enum':
+        if isinstance(j, bool):
+            return False
+        if isinstance(j, str):
+            return j not in [n for n, _ in d['members']]
+        if isnum:
+            return j not in [v for _, v in d['members']]
+        return True
+    if t == 'string':
+        return not isinstance(j, str) or not d['min'] <= len(j) <= d['max'] or '\0' in j or (not d['utf8'] and not j.isascii())
+    if t == 'array':
+        return (not isinstance(j, list) or not d['min'] <= len(j) <= d['max']
+                or any(clearly_invalid(d['elem'], x, False) for x in j))
+    if t == 'tuple':
+        return (not isinstance(j, list) or len(j) != len(d['elems'])
+                or any(clearly_invalid(dd, x, False) for dd, x in zip(d['elems'], j)))
+    if t == 'struct':
+        m = dict(d['members'])
+        if not isinstance(j, dict) or any(k not in m for k in j):
+            return True
+        if any(x is not None and clearly_invalid(m[k], x, False) for k, x in j.items()):
+            return True
+        if not has_previous and any(n not in j or j[n] is None for n in m if n not in d['optional']):
+            return True
+        return False
+    return False
+
+
 def _num(x):
     return isinstance(x, (int, float)) and not isinstance(x, bool)
 
@@ -624,17 +689,23 @@ def oracle(case, obs):
                 elif not untouched:
                     fail(i, 'refusal-not-clean', f'refused ({st["reply"]}) but cache/updates changed')
                 cv = clearly_valid(d, j)
-                lv = limits_verdict(md, pname, _expected(d, j), before) if cv and not isinstance(j, (dict, list)) else 'unclear'
-                hv = hooks_verdict(md, pname, _expected(d, j), before) if cv and not isinstance(j, (dict, list)) else 'unclear'
+                ci = clearly_invalid(d, j, True)
+                scalar = not isinstance(j, (dict, list))
+                lv = limits_verdict(md, pname, _expected(d, j), before) if cv and scalar else 'unclear'
+                hv = hooks_verdict(md, pname, _expected(d, j), before) if cv and scalar else 'unclear'
+                if not scalar and cv and not checks_for(md, pname):
+                    lv = hv = 'ok'
+                py_possible = any(h['param'] == pname and h['act'] == 'py' and h['cond'][0] != 'never' for h in md['hooks'])
                 if iserr:
                     if cv and lv == 'ok' and hv in ('ok', 'ok-stopped') and _limits_usable(md, pname, before):
                         fail(i, 'valid-request-refused', f'valid request answered {st["reply"]}')
-                    elif not cv and st['reply'] not in BADVALUE:
+                    elif st['reply'] in BADVALUE:
+                        if cv and st['reply'] != 'RangeError' and (lv == 'violated' or hv == 'range'):
+                            fail(i, 'unfitting-error-class', f'limit/hook refusal answered {st["reply"]}')
+                    elif ci:
                         fail(i, 'unfitting-error-class', f'invalid payload answered {st["reply"]}')
-                    elif cv and hv == 'py':
-                        pass                                   # a hook raising a non-SECoP exception: any error class
-                    elif cv and st['reply'] != 'RangeError' and (lv == 'violated' or hv == 'range'):
-                        fail(i, 'unfitting-error-class', f'limit/hook refusal answered {st["reply"]}')
+                    elif not py_possible:
+                        fail(i, 'unfitting-error-class', f'refusal answered {st["reply"]}')
         else:
             cname = cmd_by_export.get(r['acc']) if (r['mod'] == md['name'] and r['acc'] is not None) else None
             if not untouched:
@@ -670,8 +741,8 @@ def oracle(case, obs):
                 valid = (j is None) if c['arg'] is None else (j is not None and clearly_valid(c['arg'], j))
                 if iserr and valid:
                     fail(i, 'valid-request-refused', f'valid request answered {st["reply"]}')
-                elif iserr and not valid and st['reply'] not in BADVALUE:
-                    fail(i, 'unfitting-error-class', f'invalid argument answered {st["reply"]}')
+                elif iserr and st['reply'] not in BADVALUE:
+                    fail(i, 'unfitting-error-class', f'refused argument answered {st["reply"]}')
         before_t = after_t
     return fails
 
